@@ -483,11 +483,10 @@ func (mp *Pool) RemoveStale(isOK func(*transaction.Transaction) bool, feer Feer)
 // changed.
 func (mp *Pool) loadPolicy(feer Feer) bool {
 	newFeePerByte := feer.FeePerByte()
-	if newFeePerByte > mp.feePerByte {
-		mp.feePerByte = newFeePerByte
-		return true
-	}
-	return false
+	raised := newFeePerByte > mp.feePerByte
+	// Follow decreases too, a later increase is compared with the current value.
+	mp.feePerByte = newFeePerByte
+	return raised
 }
 
 // checkPolicy checks whether the transaction fits the policy.
